@@ -212,6 +212,7 @@ func checkPoly(t TB, c PolyCase) {
 	bZero := ref.AllZero(c.B)
 	var aAfter, bAfter, aSlice, bSlice []int
 	var mod *[3][]int
+	var again *[2][]int
 	if pv := try(func() {
 		aSlice, bSlice = cp(c.A), cp(c.B)
 		pa, pb := utils.NewGFPoly(gf, aSlice), utils.NewGFPoly(gf, bSlice)
@@ -243,6 +244,21 @@ func checkPoly(t TB, c PolyCase) {
 				mod = &[3][]int{cp(pb.Coefficients), cp(q2.Coefficients), cp(r2.Coefficients)}
 				pb.Coefficients[0] = lead
 			}
+			// results belong to the caller: after it has written into every polynomial it was handed (also the zero
+			// ones), a fresh division must still be right
+			same := func(x, y *utils.GFPoly) bool {
+				return x == y || (len(x.Coefficients) > 0 && len(y.Coefficients) > 0 && &x.Coefficients[0] == &y.Coefficients[0])
+			}
+			for _, res := range []*utils.GFPoly{ps, qq, rr, pa.Multiply(gf.Zero()), gf.Zero(), pa.MultByMonominal(1, 0), pa.AddOrSubstract(pa)} {
+				if same(res, pa) || same(res, pb) {
+					continue // an operation may hand back one of its operands (zero + p = p): that is the caller's own polynomial
+				}
+				for k := range res.Coefficients {
+					res.Coefficients[k] = (res.Coefficients[k] + 1 + k) % sp.Size
+				}
+			}
+			q3, r3 := utils.NewGFPoly(gf, cp(c.A)).Divide(utils.NewGFPoly(gf, cp(c.B)))
+			again = &[2][]int{cp(q3.Coefficients), cp(r3.Coefficients)}
 		}
 	}); pv != nil {
 		failf(t, "C17", "gf-poly", c, "%v", pv)
@@ -293,6 +309,11 @@ func checkPoly(t TB, c PolyCase) {
 		if mod != nil {
 			if back := rf.PolyAdd(rf.PolyMul(mod[1], mod[0]), mod[2]); !eqPoly(back, c.A) {
 				failf(t, "C17", "gf-poly", c, "Divide by the same divisor object after its leading coefficient was changed to %d: q=%v r=%v, q*d+r=%v != dividend %v", mod[0][0], mod[1], mod[2], ref.Norm(back), ref.Norm(c.A))
+			}
+		}
+		if again != nil {
+			if back := rf.PolyAdd(rf.PolyMul(again[0], c.B), again[1]); !eqPoly(back, c.A) {
+				failf(t, "C17", "gf-poly", c, "after the caller overwrote the polynomials returned by earlier operations, a fresh Divide returns q=%v r=%v: q*d+r=%v != dividend %v", again[0], again[1], ref.Norm(back), ref.Norm(c.A))
 			}
 		}
 		rn, bn := ref.Norm(r), ref.Norm(c.B)
@@ -353,7 +374,13 @@ func checkRS(t TB, c RSCase) (degOrder string) {
 				desc = false
 			}
 		}
-		data := append([]int(nil), call.Data...)
+		// the data is a sub-slice of a larger buffer of the caller's: what lies behind it must not be touched
+		whole := make([]int, len(call.Data)+call.N+8)
+		copy(whole, call.Data)
+		for j := len(call.Data); j < len(whole); j++ {
+			whole[j] = 1 + j%(sp.Size-1)
+		}
+		data := whole[:len(call.Data)]
 		var got []int
 		var pv any
 		if !withWatchdogFor(20*time.Second, func() { pv = try(func() { got = enc.Encode(data, call.N) }) }) {
@@ -366,6 +393,11 @@ func checkRS(t TB, c RSCase) (degOrder string) {
 		}
 		if pv != nil {
 			failf(t, "C17", "rs-history", c, "call %d Encode(len %d, %d): %v", i, len(call.Data), call.N, pv)
+		}
+		for j := len(call.Data); j < len(whole); j++ {
+			if whole[j] != 1+j%(sp.Size-1) {
+				failf(t, "C17", "rs-history", c, "call %d: Encode wrote into the caller's buffer behind the data (offset +%d became %d)", i, j-len(call.Data), whole[j])
+			}
 		}
 		for j := range data {
 			if data[j] != call.Data[j] {
